@@ -1512,9 +1512,13 @@ class VM:
             search = args[0] if args else UNDEFINED
             length = len(arr._elements)
             start = relative_index(args[1], length, 0) if len(args) > 1 else 0
+            search_is_nan = isinstance(search, float) and math.isnan(search)
             for i in range(start, length):
-                if vm._strict_equals(arr._elements[i], search):
+                elem = arr._elements[i]
+                if vm._strict_equals(elem, search):
                     return True
+                if search_is_nan and isinstance(elem, float) and math.isnan(elem):
+                    return True  # SameValueZero: NaN is found
             return False
 
         def sort_fn(*args):
